@@ -508,7 +508,10 @@ theorem push_msg {c : List UInt8} {d : Dec} (h : SInv c d) {x : UInt8} {m : List
   | err e => intro hm _; cases hm
   | panic s => intro hm _; cases hm
 
-/-- effect of one operation on the bytes consumed since the last `reset` / `finalize` -/
+/-- effect of one operation on the bytes consumed since the last `reset` / `finalize` /
+replacement of the decoder (`new`, `from_buf`): only `push_byte` extends them, every other
+operation starts from nothing.  In particular the stale contents of a buffer handed to
+`from_buf` are *not* part of the consumed bytes. -/
 def consStep (acc : List UInt8) : Op → List UInt8
   | .push b => acc ++ [b]
   | _ => []
@@ -519,6 +522,8 @@ theorem sinv_step {c : List UInt8} {d : Dec} (h : SInv c d) (op : Op) :
   | push x => exact sinv_push h x
   | fin => exact sinv_reset [] d
   | reset => exact sinv_reset [] d
+  | new => exact sinv_fresh d.buf.cap
+  | fromBuf stale => exact sinv_fresh d.buf.cap
 
 theorem sound_run (ops : List Op) : ∀ {c : List UInt8} {d : Dec} (i : Nat) {m : List UInt8},
     SInv c d → (d.run ops).2[i]? = some (OpOut.out (Out.msg m)) →
@@ -539,6 +544,8 @@ theorem sound_run (ops : List Op) : ∀ {c : List UInt8} {d : Dec} (i : Nat) {m 
         simpa [consStep] using push_msg hs hm
       | fin => simp [step] at h
       | reset => simp [step] at h
+      | new => simp [step] at h
+      | fromBuf stale => simp [step] at h
     | succ i =>
       simp only [List.getElem?_cons_succ] at h
       have := ih i (sinv_step hs op) h
@@ -611,6 +618,7 @@ def evBytes : List Ev → List UInt8
   | .wouldBlock :: r => evBytes r
   | .interrupted :: r => evBytes r
   | .other :: r => evBytes r
+  | .eof :: r => evBytes r
 
 /-- outcome of one `read`: `c` = bytes consumed since the last decoder reset, `bs` = bytes still to
 come; afterwards the same holds for some later split, and a returned payload is a frame at the end
@@ -674,6 +682,9 @@ theorem rok_readLoop (kind : SrcKind) (evs : List Ev) : ∀ {c : List UInt8} {d 
     | other =>
       unfold readLoop
       exact rok_onIoErr kind h evs _
+    | eof =>
+      -- a mid-stream end of input resets the decoder like any other error (`.eh`: kind `Other`)
+      cases kind <;> exact rok_onIoErr _ h evs _
 
 /-- `next` / `read_nb` / `next_nb` only re-label errors of `read` -/
 theorem call_eq_read (r : Rdr) (cl : Call) :
